@@ -41,7 +41,38 @@ def parseSArr (j : Json) : R SArr := do
     pure (nm, mkGet shape data.toArray)) j "fields"
   pure { off := off, shape := shape, fields := fs }
 
+def parseDT (s : String) : R DT :=
+  match s with
+  | "f8" => pure .f8
+  | "f4" => pure .f4
+  | "i8" => pure .i8
+  | _ => throw s!"bad dtype {s}"
+
+def dtName : DT → String
+  | .f8 => "f8"
+  | .f4 => "f4"
+  | .i8 => "i8"
+
+def parseDArr (j : Json) : R DArr := do
+  let off ← getList asInt j "off"
+  let shape ← getList asNat j "shape"
+  let fs ← getList (fun f => do
+    let nm ← getStr f "name"
+    let dt ← getStr f "dtype" >>= parseDT
+    let data ← getList (asOpt asRat) f "data"
+    if data.length ≠ shape.foldl (· * ·) 1 then throw "data/shape mismatch"
+    -- an integer field holds integers (no NaN)
+    if dt == .i8 && data.any (fun v => match v with | none => true | some x => x.den != 1) then
+      throw "non-integer value in an integer field"
+    pure (nm, dt, mkGet shape data.toArray)) j "fields"
+  pure { off := off, shape := shape, fields := fs }
+
 def jV : V → Json := jOpt jRat
+
+/-- `none`: NaN cast to an integer (platform dependent, not compared) -/
+def jCast : Option V → Json
+  | none => jStr "undef"
+  | some v => jV v
 
 def handle (op : String) (req : Json) : R Json := do
   match op with
@@ -63,6 +94,29 @@ def handle (op : String) (req : Json) : R Json := do
         jObj [("name", jStr x.1), ("shape", jList jInt x.2.1), ("data", jList jV x.2.2)]) r
     pure (jObj [("model", enc (overlapStructured false m fill ndim arrs)),
                 ("spec", enc (overlapStructuredSpec m fill ndim arrs))])
+  | "c11.structuredD" =>
+    -- structured merge with field dtypes: an exception class or the fields; for all-float64 inputs also the
+    -- plain specification `overlapStructuredSpec` (right-hand side of `structured_whole`)
+    let m ← getStr req "mode" >>= parseMode
+    let fill ← fld req "fill" >>= asOpt asRat
+    let ndim ← getNat req "ndim"
+    let arrs ← getList parseDArr req "arrays"
+    let enc := fun (r : Except String (List (String × DT × (List Int × List (Option V))))) =>
+      match r with
+      | .error cls => jObj [("raises", jStr cls)]
+      | .ok fs => jObj [("fields", jList (fun (x : String × DT × (List Int × List (Option V))) =>
+          jObj [("name", jStr x.1), ("dtype", jStr (dtName x.2.1)), ("shape", jList jInt x.2.2.1),
+                ("data", jList jCast x.2.2.2)]) fs)]
+    let allF8 := arrs.all (fun a => a.fields.all (fun f => f.2.1 == .f8))
+    let plain : Json :=
+      if allF8 then
+        jList (fun (x : String × (List Int × List V)) =>
+          jObj [("name", jStr x.1), ("dtype", jStr "f8"), ("shape", jList jInt x.2.1), ("data", jList jV x.2.2)])
+          (overlapStructuredSpec m fill ndim (arrs.map DArr.toS))
+      else Json.null
+    pure (jObj [("model", enc (overlapStructuredD false m fill ndim arrs)),
+                ("spec", enc (overlapStructuredD true m fill ndim arrs)),
+                ("plainSpec", plain)])
   | _ => throw s!"unknown op {op}"
 
 end PewDriver.C11
